@@ -575,6 +575,9 @@ def assert_repo_import():
     import schemathesis
 
     f = os.path.realpath(schemathesis.__file__)
+    allow = os.environ.get("VERIF_ALLOW_SRC")  # mutation trials on a scratch worktree only
+    if allow and f.startswith(os.path.realpath(allow) + "/"):
+        return
     if not f.startswith("/repo/src/"):
         raise SystemExit(f"schemathesis imported from {f}, not from /repo/src: refusing to check a stale copy")
 
